@@ -23,6 +23,11 @@ impl Generator {
         Self { loc, id }
     }
 
+    #[cfg(meshless_voro_verif)]
+    pub fn verif_new(id: usize, loc: DVec3, dimensionality: Dimensionality) -> Self {
+        Self::new(id, loc, dimensionality)
+    }
+
     /// Get the id of this generator
     pub fn id(&self) -> usize {
         self.id
